@@ -51,6 +51,8 @@ pub fn schedules(l: &Limits, k_clock: u64, k_stop: u64) -> Vec<Cut> {
             v.push(Cut::ClockAt(k));
         }
     }
+    // the stop that is processed before the search thread has started to run
+    v.push(Cut::StopBeforeStart);
     if !l.has_time() {
         // `go` with no time limit: the GUI ends it with `stop`, landing at the k-th poll
         let n = if bounded { k_stop.min(6) } else { k_stop };
@@ -122,7 +124,7 @@ pub fn c09_worker(args: &Args, w: &Worker) -> i32 {
                 let out = searchrun::run_within(&board, &c, &fresh, ALLOW);
                 w.count("searches", 1);
                 w.count("search_nodes", out.nodes);
-                if out.clock_fired || matches!(cut, Cut::StopAt(_)) {
+                if out.clock_fired || matches!(cut, Cut::StopAt(_) | Cut::StopBeforeStart) {
                     w.count("searches_interrupted", 1);
                 }
                 if code == 1000 && matches!(cut, Cut::ClockAt(3)) {
@@ -190,6 +192,55 @@ pub fn c09_worker(args: &Args, w: &Worker) -> i32 {
                 w.count("stop_points", 1);
                 if let Some(why) = judge_go(&out, &legal) {
                     w.violation(&c.sig(), &format!("'go' stopped at flag poll {k} on {}: {why}", p.fen), &c.json());
+                }
+            }
+        }
+    }
+    // a shallower search of a NEARBY position on the cache left by a deeper search: the second
+    // root was an interior node of the first search (possibly a fail-low node whose cached move
+    // is only a placeholder); every position two plies away, depths 1..3, cache restored each time
+    for p in P9.iter().take(if thorough { 16 } else { 6 }) {
+        let Ok((board, pos, _)) = searchrun::open(p.fen, &spos::hist(p)) else { continue };
+        let first = case_for(p, &Limits { depth: Some(4), ..Default::default() }, Cut::ClockNever);
+        let base = searchrun::run(&board, &first, &fresh);
+        if base.panicked.is_some() || base.nodes > 400_000 {
+            continue;
+        }
+        let saved = crate::board::transposition_table::TRANSPOSITION_TABLE.read().unwrap_or_else(|e| e.into_inner()).clone();
+        let mut seconds: Vec<(Vec<String>, bool)> = vec![];
+        for m1 in pos.legal_moves() {
+            let p1 = pos.make(&m1);
+            for m2 in p1.legal_moves() {
+                let p2 = p1.make(&m2);
+                if !p2.legal_moves().is_empty() {
+                    seconds.push((vec![m1.uci(), m2.uci()], p2.in_check(p2.white)));
+                }
+            }
+        }
+        // positions in check first (their first generated move is usually not legal)
+        seconds.sort_by_key(|(_, chk)| !*chk);
+        let cap = if thorough { 1500 } else { 250 };
+        for (moves, _) in seconds.into_iter().take(cap) {
+            idx += 1;
+            if !w.mine(idx) {
+                continue;
+            }
+            let mut h = spos::hist(p);
+            h.extend(moves);
+            let Ok((b2, pos2, _)) = searchrun::open(p.fen, &h) else { continue };
+            let legal2 = searchrun::legal_uci(&pos2);
+            for d in 1..=3u128 {
+                *crate::board::transposition_table::TRANSPOSITION_TABLE.write().unwrap_or_else(|e| e.into_inner()) = saved.clone();
+                let c = Case { fen: p.fen.to_string(), history: h.clone(), limits: Limits { depth: Some(d), ..Default::default() }, max_depth: Some(d as u8), cut: Cut::ClockNever, elapsed_ms: None };
+                let out = searchrun::run(&b2, &c, &keep);
+                w.count("searches", 1);
+                w.count("second_searches_on_a_neighbours_cache", 1);
+                if let Some(why) = judge_go(&out, &legal2) {
+                    let mut r = c.json();
+                    if let J::Obj(v) = &mut r {
+                        v.push(("after_depth4_search_of".into(), s(p.fen)));
+                    }
+                    w.violation(&format!("{}|neighbour", c.sig()), &format!("'go depth {d}' on {} + {:?}, on the cache left by 'go depth 4' of {}: {why}", p.fen, h, p.fen), &r);
                 }
             }
         }
@@ -464,6 +515,31 @@ pub fn replay_c09(doc: &J) -> i32 {
             return 2;
         }
         return match a.flatten() {
+            Some(why) => {
+                println!("violation reproduced: {why}");
+                1
+            }
+            None => {
+                println!("no violation");
+                0
+            }
+        };
+    }
+    if r.get("after_depth4_search_of").is_some() {
+        let Ok((b0, _, _)) = searchrun::open(&case.fen, &[]) else { return 2 };
+        let Ok((b2, pos2, _)) = searchrun::open(&case.fen, &case.history) else { return 2 };
+        let first = Case { fen: case.fen.clone(), history: vec![], limits: Limits { depth: Some(4), ..Default::default() }, max_depth: Some(4), cut: Cut::ClockNever, elapsed_ms: None };
+        let mut v = vec![];
+        for _ in 0..2 {
+            let _ = searchrun::run(&b0, &first, &Opts { clear_cache: true, observe: false, neutral: false });
+            let out = searchrun::run(&b2, &case, &Opts { clear_cache: false, observe: false, neutral: false });
+            v.push(judge_go(&out, &searchrun::legal_uci(&pos2)));
+        }
+        if v[0] != v[1] {
+            eprintln!("MACHINERY: replay not reproducible");
+            return 2;
+        }
+        return match &v[0] {
             Some(why) => {
                 println!("violation reproduced: {why}");
                 1
